@@ -127,6 +127,7 @@ func Known(id string, c bool) {
 func Note(v interface{})               {}
 func Sample(key string, v interface{}) {}
 func Concretize(x int) int             { return x }
+func SetUnwind(n int)                  {}
 func IsConcrete(v interface{}) bool    { return true }
 func Ite(c bool, a, b int) int {
 	if c {
